@@ -133,7 +133,7 @@ package ast
 //@   ensures  [own-interpreter;C13] ncalls() == 1 && callarg[parsley.Interpreter](1, 0) == old(n.interpreter) && callarg[interface{}](1, 1) == userCtx && callarg[parsley.NonTerminalNode](1, 2) == parsley.NonTerminalNode(n)
 //@   ensures  [result;C13] v == callres[interface{}](1, 0) && same(err, callres[parsley.Error](1, 1))
 //@   ensures  err != nil ==> err.Pos() >= 0
-//@   assigns  fields[parsley.Node]()
+//@   assigns  fields[parsley.Node]("children")
 
 //@ -- ---------------------------------------------------------------- SetReaderPos (RightTrim's write into nodes)
 //@ -- The callbacks handed to SetReaderPos move an end position forward inside the window of the active parser,
